@@ -469,44 +469,68 @@ def _fun_rows(rep, model):
 
 
 def _merging(rep, model):
-    """Scalar merging in the constructors of the scalar-multiple classes."""
-    for cls, inner_cls in (('OperatorLeftScalarMult',
-                            'OperatorLeftScalarMult'),
-                           ('OperatorRightScalarMult',
-                            'OperatorRightScalarMult')):
-        for field in ('R', 'C'):
-            for lin in (False, True):
-                tag = '%s.__init__[merge,%s,linear=%s]' % (cls, field, lin)
-                ci = model.get(cls)
-                line = ci.methods['__init__'].lineno
+    """Constructors of the scalar-multiple classes look at the class of their
+    operand (scalar-merging shortcuts): every (outer, inner) combination of
+    expression classes must still denote outer(inner(x))."""
+    inners = ['OperatorLeftScalarMult', 'OperatorRightScalarMult',
+              'OperatorSum', 'OperatorComp']
+    for cls in ('OperatorLeftScalarMult', 'OperatorRightScalarMult'):
+        for inner_cls in inners:
+            for field in ('R', 'C'):
+                for lin in (False, True):
+                    tag = '%s.__init__[%s of %s,%s,linear=%s]' % (
+                        cls, 'merge' if inner_cls == cls else 'outer',
+                        inner_cls, field, lin)
+                    ci = model.get(cls)
+                    line = ci.methods['__init__'].lineno
 
-                def body(I):
-                    c = Case(I, field, lin)
-                    A = I.opsym('A', c.X, c.Y, lin)
-                    s1, s2 = Rat.var('s'), Rat.var('t')
-                    inner = I.instantiate(model.get(inner_cls), [A, s1], {})
-                    outer = I.instantiate(ci, [inner, s2], {})
-                    got = apply(I, outer, c.x)
-                    if cls == 'OperatorLeftScalarMult':
-                        want = I.binop(ast.Mult, s2, I.binop(
-                            ast.Mult, s1, apply(I, A, c.x)))
-                    else:
-                        want = apply(I, A, I.binop(ast.Mult, s1, I.binop(
-                            ast.Mult, s2, c.x)))
-                    return (vs.freeze(got.val), vs.freeze(want.val),
-                            vs.show(got.val), vs.show(want.val))
-                try:
-                    for got, want, gs, ws in run_leaves(model, body):
-                        if got != want:
-                            rep.violation(
-                                'R1', cls + '.__init__',
-                                '%s: nested scalar multiples evaluate to %s,'
-                                ' expected %s' % (tag, gs, ws), ci.rel, line)
+                    def body(I):
+                        c = Case(I, field, lin)
+                        s1, s2 = Rat.var('s'), Rat.var('t')
+                        A = I.opsym('A', c.X, c.Y, lin)
+                        if inner_cls == 'OperatorSum':
+                            Bo = I.opsym('B', c.X, c.Y, lin)
+                            inner = I.instantiate(model.get(inner_cls),
+                                                  [A, Bo], {})
+                            isem = lambda v: I.binop(
+                                ast.Add, apply(I, A, v), apply(I, Bo, v))
+                        elif inner_cls == 'OperatorComp':
+                            Bo = I.opsym('B', c.X, c.X, lin)
+                            inner = I.instantiate(model.get(inner_cls),
+                                                  [A, Bo], {})
+                            isem = lambda v: apply(I, A, apply(I, Bo, v))
+                        elif inner_cls == 'OperatorLeftScalarMult':
+                            inner = I.instantiate(model.get(inner_cls),
+                                                  [A, s1], {})
+                            isem = lambda v: I.binop(ast.Mult, s1,
+                                                     apply(I, A, v))
                         else:
-                            rep.holds('R1', tag, 'scalars merged by '
-                                      'multiplication, inner operator kept')
-                except Undecided as e:
-                    rep.undecided('R1', tag, str(e), ci.rel, line)
-                except PyRaise as e:
-                    rep.violation('R1', cls + '.__init__', '%s: raises %s'
-                                  % (tag, e.name), ci.rel, line)
+                            inner = I.instantiate(model.get(inner_cls),
+                                                  [A, s1], {})
+                            isem = lambda v: apply(I, A, I.binop(
+                                ast.Mult, s1, v))
+                        outer = I.instantiate(ci, [inner, s2], {})
+                        got = apply(I, outer, c.x)
+                        if cls == 'OperatorLeftScalarMult':
+                            want = I.binop(ast.Mult, s2, isem(c.x))
+                        else:
+                            want = isem(I.binop(ast.Mult, s2, c.x))
+                        return (vs.freeze(got.val), vs.freeze(want.val),
+                                vs.show(got.val), vs.show(want.val))
+                    try:
+                        for got, want, gs, ws in run_leaves(model, body):
+                            if got != want:
+                                rep.violation(
+                                    'R1', cls + '.__init__',
+                                    '%s: the nested expression evaluates to '
+                                    '%s, expected %s' % (tag, gs, ws),
+                                    ci.rel, line)
+                            else:
+                                rep.holds('R1', tag, 'denotes outer(inner('
+                                          'x))')
+                    except Undecided as e:
+                        rep.undecided('R1', tag, str(e), ci.rel, line)
+                    except PyRaise as e:
+                        rep.violation('R1', cls + '.__init__',
+                                      '%s: raises %s' % (tag, e.name),
+                                      ci.rel, line)
